@@ -31,7 +31,13 @@ RULE = ("(1) the parameter splitter on every text of length <= 5 over {a , space
         "spelling of the key x two ways of writing that in a path - judged by the model and model-free (has_child = exactly the "
         "hashes having / lacking the key); max() / min() plain and inverted over what a flat or nested collector ((X)), "
         "((X)+(Y)), (((X)+(Y))+(Z)) ... gathered from lists / hashes of ints and floats with ties, both notations - judged on the "
-        "values (numeric greatest / least, inverted the others in any order); "
+        "values (numeric greatest / least, inverted the others in any order); the SEQUENCE flat collector -> [<!>max()|min()] -> [name()] / "
+        "[parent(n)] / [parent(n)][name()] over collections of ints / floats with ties at depth 1, 2 and 3 (members gathered one by one "
+        "`k.*`, for name() also the list itself), both notations, every n up to the depth of the shallowest gathered member: name() = the "
+        "key / index each selected member is held under in ITS collection, parent(n) = its n-th ancestor in the document (oracle: the "
+        "members' addresses read off the document); THE DEFAULT RETRIEVAL MODE: every case whose selection is empty by definition and a "
+        "third of the others is asked again through get_nodes(path) with mustexist=False (every node in front of the keyword exists and "
+        "is not null) - the same members, and the empty selection is an empty result, not an error; "
         "collections holding containers (crash classes).  Observable: result node addresses in order (identity of the "
         "yielded container, else parent identity + parentref), for name() the yielded key/index, or the error class.  "
         "distinct_nontrivial = distinct cases with a non-empty result that is a proper subset of the members or a "
@@ -129,9 +135,10 @@ def maybe_anchorize(docj, path):
     return docj
 
 
-def run_kw(docj, path, want_kw, want_inv, want_params):
+def run_kw(docj, path, want_kw, want_inv, want_params, mustexist=True):
     """Outcome of the query on the real Processor: (expressible?, outcome) with outcome
-    {"nodes": [addr…]} | {"names": [key/index…]} | {"err": class, "site":…, "partial": n}."""
+    {"nodes": [addr…]} | {"names": [key/index…]} | {"err": class, "site":…, "partial": n}.
+    mustexist=False: the DEFAULT retrieval mode of get_nodes (a YAML Path error is then an error, never "nothing matched")."""
     from yamlpath import Processor, YAMLPath
     from yamlpath.enums import PathSegmentTypes
     from yamlpath.path.searchkeywordterms import SearchKeywordTerms
@@ -156,7 +163,7 @@ def run_kw(docj, path, want_kw, want_inv, want_params):
 
     def go():
         proc = Processor(core.quiet_logger(), doc)
-        for nc in proc.get_nodes(yp, mustexist=True):
+        for nc in proc.get_nodes(yp, mustexist=mustexist):
             if want_kw == "NAME":
                 names.append(nc.node)
             else:
@@ -173,8 +180,36 @@ def run_kw(docj, path, want_kw, want_inv, want_params):
         return True, {"oom": str(val)}
     cls = core.exc_class(val)
     if cls == "ypath" and not res and not names:
-        return True, {"err": "ypath"}
+        return True, {"err": "ypath", "site": core.crash_site(val)} if not mustexist else {"err": "ypath"}
     return True, {"err": cls, "site": core.crash_site(val), "partial": len(res) + len(names)}
+
+
+def judge_optional(c, path, mnodes, mnames, what):
+    """The same query in the DEFAULT retrieval mode (get_nodes(path), mustexist=False; what yaml-get style callers use):
+    the keyword must select exactly the same members - in particular an EMPTY selection is an empty result there, not an
+    error (with mustexist=True "nothing matched" is reported as a YAML Path error by design).  Every node the path names
+    in front of the keyword exists, so the optional mode has nothing to create.  -> (signature, text) | None"""
+    okp, im = run_kw(c["doc"], path, c["kw"], c["inv"], c["params"], mustexist=False)
+    if not okp or "oom" in im:
+        return None
+    name = "%s%s" % ("!" if c["inv"] else "", KW[c["kw"]])
+    want = ([(r[1] if r is not None else None) for r in mnames] if c["kw"] == "NAME" else mnodes)
+    if "err" in im:
+        if im["err"] == "timeout":
+            return ("timeout", what + " (default retrieval mode) did not return")
+        if not want:
+            return ("optional-mode:empty-selection-raises:%s" % name,
+                    "get_nodes(%r) in the default retrieval mode (mustexist=False) raised %s at %s; the keyword selects no member here, "
+                    "so the result is the empty selection (on %s)" % (path, im["err"], im.get("site"), what))
+        return ("optional-mode:raises:%s" % name, "get_nodes(%r, mustexist=False) raised %s at %s; by definition it selects %s (%s)"
+                % (path, im["err"], im.get("site"), want, what))
+    got = im.get("names") if c["kw"] == "NAME" else im.get("nodes")
+    same = (got == want) or (c["inv"] and c["kw"] in ("MAX", "MIN", "UNIQUE") and got is not None
+                             and sorted(map(json.dumps, got)) == sorted(map(json.dumps, want)))
+    if not same:
+        return ("optional-mode:kw-mismatch:%s" % name, "get_nodes(%r, mustexist=False) yielded %s; by definition %s (%s)"
+                % (path, got, want, what))
+    return None
 
 
 def reached_by(docj, path):
@@ -282,6 +317,30 @@ def direct_judge(c, path, got):
     return None
 
 
+def opt_sampled(path, empty):
+    import zlib
+    return empty or zlib.crc32(path.encode()) % 3 == 0
+
+
+def null_in_front(c):
+    """Is a node the keyword is applied to null?  The default retrieval mode treats a null node as one still to be built
+    and hands it on without applying the segment (C09's subject): not judged."""
+    for at in c["ats"]:
+        j = c["doc"]
+        for kind, ref in at:
+            if j["k"] == "map":
+                j = dict((json.dumps(k), v) for k, v in j["e"]).get(json.dumps(ref))
+            elif j["k"] == "seq":
+                j = j["i"][ref] if -len(j["i"]) <= ref < len(j["i"]) else None
+            else:
+                j = None
+            if j is None:
+                return True
+        if j["k"] == "null":
+            return True
+    return False
+
+
 def kw_chunk(cases):
     """cases: [{"fam", "doc", "path", "ats", "kw", "inv", "params"}]"""
     drv = core.Driver()
@@ -376,6 +435,11 @@ def kw_chunk(cases):
                 continue
             if want and want[0] is not None:
                 stats["nontrivial"] += 1
+            if "reach" not in c and opt_sampled(path, False) and not null_in_front(c):
+                ov = judge_optional(c, path, mnodes, mnames, what)
+                stats["fam"]["optional-mode"] = stats["fam"].get("optional-mode", 0) + 1
+                if ov is not None:
+                    viol.append((ov[0], ov[1], dict(case, mode="optional")))
             continue
         got = im.get("nodes", []) if "err" not in im else []
         if got != mnodes:
@@ -387,6 +451,14 @@ def kw_chunk(cases):
             viol.append(("parent-result-parentref", what + " yielded the right ancestor(s) %s but with a parent reference under "
                          "which the reported parent does not hold them (name() of the result is that reference)" % bad, case))
             continue
+        if "reach" not in c and opt_sampled(path, not mnodes) and not null_in_front(c):
+            # the default retrieval mode: the same selection; all of the cases whose selection is empty, a third of the others
+            ov = judge_optional(c, path, mnodes, mnames, what)
+            key = "optional-mode" + ("/empty-selection" if not mnodes else "")
+            stats["fam"][key] = stats["fam"].get(key, 0) + 1
+            if ov is not None:
+                viol.append((ov[0], ov[1], dict(case, mode="optional")))
+                continue
         nmem = c.get("members", 0)
         if got and (c["kw"] in ("PARENT",) and c["params"] not in ("0",) or 0 < len(got) < nmem):
             stats["nontrivial"] += 1
@@ -980,6 +1052,146 @@ def collector_kw_cases(rng, tier):
     return cases
 
 
+# --------------------------------------------------------------------------- collector -> max / min -> name() / parent(n)
+
+def run_seq(docj, path):
+    """Results of a multi-step path on the real Processor: {"vals": [...]} each result a document node's address
+    (["node", addr]), or - when the last segment is name() - the yielded key / index (["name", x])."""
+    from yamlpath import Processor, YAMLPath
+    from yamlpath.wrappers import NodeCoords
+    doc = codec.json_to_ruamel(docj)
+    table = codec.build_addr_table(doc)
+    names = path.endswith("[name()]")
+    res = []
+
+    def go():
+        for nc in Processor(core.quiet_logger(), doc).get_nodes(YAMLPath(path), mustexist=True):
+            while isinstance(nc.node, NodeCoords):
+                nc = nc.node
+            if names:
+                res.append(["name", nc.node])
+            else:
+                res.append(["node", addr_of_result(nc, table, doc)])
+    st, val = cc.guarded(go)
+    if st == "ok":
+        return {"vals": res}
+    if st == "timeout":
+        return {"err": "timeout"}
+    if isinstance(val, codec.OutOfModel):
+        return {"vals": res + [["not-a-document-node", str(val)]]}
+    cls = core.exc_class(val)
+    if cls == "ypath" and not res:
+        return {"err": "ypath"}
+    return {"err": cls, "site": core.crash_site(val), "partial": res}
+
+
+def coll_seq_chunk(cases):
+    """<flat collector>[<!>max()|min()] FOLLOWED BY [name()] / [parent(n)] / [parent(n)][name()]: the members max / min
+    select out of what a collector gathered are nodes of the document, so name() is the key / index each is held under in
+    ITS collection and parent(n) its n-th ancestor in the document.  Oracle: the gathered members with their addresses,
+    read off the document (operands `k.*` / `p.k.*`: the members of a list / hash; `k`: the list itself, gathered member
+    by member); the greatest / least by numeric value (inverted: the others, in any order)."""
+    stats = {"n": 0, "nontrivial": 0, "oom": 0, "fam": {}, "skipped": 0, "crash_agreed": {}}
+    viol = []
+    for c in cases:
+        plainj = codec.json_to_plain(c["doc"])
+        gathered = []
+        for addr_keys, _star in c["operands"]:
+            coll = plainj
+            for k in addr_keys:
+                coll = coll[k]
+            base = [["k", k] for k in addr_keys]
+            refs = [["k", k] for k in coll] if isinstance(coll, dict) else [["i", i] for i in range(len(coll))]
+            gathered += [(base + [r], coll[r[1]]) for r in refs]
+        stats["n"] += 1
+        expr = c["expr"]
+        # what the collector alone gathers is not C13's subject
+        basev = run_coll_kw(c["doc"], expr, None, False)
+        from harness.props import c12
+        if basev is None or basev.get("vals") != [c12.ident(v) for _a, v in gathered]:
+            stats["skipped"] += 1
+            continue
+        best = max(v for _a, v in gathered) if c["kw"] == "MAX" else min(v for _a, v in gathered)
+        sel = [a for a, v in gathered if (v == best) != c["inv"]]
+        steps = c["steps"]
+        if steps is None:
+            want = [["name", a[-1][1]] for a in sel]
+        elif c["then_name"]:
+            want = [["name", a[:len(a) - steps][-1][1]] for a in sel]
+        else:
+            want = [["node", a[:len(a) - steps]] for a in sel]
+        path = "%s[%s%s()]%s" % (expr, "!" if c["inv"] else "", KW[c["kw"]], c["tail"])
+        got = run_seq(c["doc"], path)
+        fam = "collector-then/%s%s" % (KW[c["kw"]], "/name" if steps is None or c["then_name"] else "/parent")
+        stats["fam"][fam] = stats["fam"].get(fam, 0) + 1
+        case = dict(c, kind="collseq", query=path)
+        what = "%s on %s" % (path, json.dumps(plainj))
+        if not sel:
+            continue
+        if "err" in got:
+            sig = ("%s@%s" % (got["err"], got.get("site"))) if got["err"] not in ("ypath", "timeout") else \
+                "collector-then-keyword-refused:%s" % c["tail"].split("(")[0].strip("[")
+            viol.append((sig, what + " raised %s; expected %s" % (got["err"], want), case))
+            continue
+        same = got["vals"] == want if not c["inv"] else sorted(map(json.dumps, got["vals"])) == sorted(map(json.dumps, want))
+        if not same:
+            kind = "name" if steps is None or c["then_name"] else "parent"
+            viol.append(("collector-then-%s:%s%s" % (kind, "!" if c["inv"] else "", KW[c["kw"]]),
+                         what + " yielded %s; the members %s%s() selects are %s, so by definition %s"
+                         % (got["vals"], "!" if c["inv"] else "", KW[c["kw"]], sel, want), case))
+            continue
+        if len(sel) < len(gathered):
+            stats["nontrivial"] += 1
+    return stats, viol[:40], [], []
+
+
+def coll_seq_cases(rng, tier):
+    """Documents {a: [...], p: {b: [...], c: {...}}, q: {r: {d: [...]}}} of ints / floats with ties (collections at depth
+    1, 2 and 3); flat collectors (X), (X)+(Y), (X)+(Y)+(Z) over their members (`k.*`), for name() also over the lists
+    themselves (`k`); both notations; then [max()] / [min()] plain and inverted; then [name()], [parent(n)] for every n up to
+    the depth of the shallowest gathered member, [parent(n)][name()]."""
+    from harness.props import c12
+    cases = []
+    for d in range(40 if tier == "quick" else 400):
+        pool = [c12.COLL_NUMS, c12.COLL_FLOATS, c12.COLL_NUMS + c12.COLL_FLOATS][d % 3]
+
+        def coll(as_map):
+            vals = [rng.choice(pool) for _ in range(rng.randint(1, 4))]
+            if as_map:
+                return {"k": "map", "e": [["k%d" % i, sj(v)] for i, v in enumerate(vals)]}
+            return {"k": "seq", "i": [sj(v) for v in vals]}
+        doc = {"k": "map", "e": [["a", coll(False)],
+                                 ["p", {"k": "map", "e": [["b", coll(False)], ["c", coll(True)]]}],
+                                 ["q", {"k": "map", "e": [["r", {"k": "map", "e": [["d", coll(rng.random() < 0.5)]]}]]}]]}
+        where = {"a": ["a"], "b": ["p", "b"], "c": ["p", "c"], "d": ["q", "r", "d"]}
+        is_map = {"a": False, "b": False, "c": True, "d": doc["e"][2][1]["e"][0][1]["e"][0][1]["k"] == "map"}
+        for n in (1, 2, 3):
+            for _rep in range(2):
+                names = rng.sample(["a", "b", "c", "d"], n)
+                for tailkind in ("name", "parent"):
+                    operands = [[where[k], True if (is_map[k] or tailkind == "parent") else rng.random() < 0.5] for k in names]
+                    fslash = rng.random() < 0.3
+                    subs = []
+                    for keys, star in operands:
+                        if fslash:
+                            subs.append("(/%s%s)" % ("/".join(keys), "/*" if star else ""))
+                        else:
+                            subs.append("(%s%s)" % (".".join(keys), ".*" if star else ""))
+                    expr = ("/" if fslash else "") + "+".join(subs)
+                    mind = min(len(keys) for keys, _s in operands) + 1
+                    if tailkind == "name":
+                        tails = [("[name()]", None, False)]
+                    else:
+                        tails = [("[parent(%s)]" % ("" if k == 1 and rng.random() < 0.5 else k), k, False) for k in range(0, mind + 1)]
+                        tails += [("[parent(%d)][name()]" % k, k, True) for k in range(1, mind)]
+                    for tail, steps, then_name in tails:
+                        for kw in ("MAX", "MIN"):
+                            for inv in (False, True):
+                                cases.append({"doc": doc, "operands": operands, "expr": expr, "kw": kw, "inv": inv, "tail": tail,
+                                              "steps": steps, "then_name": then_name})
+    return cases
+
+
 def check_tables(chk):
     from yamlpath.enums import PathSearchKeywords
     live = {k.name: str(k) for k in PathSearchKeywords}
@@ -996,7 +1208,8 @@ def run(chk: core.Check):
         rp = json.load(open(chk.replay_in))
         c = rp.get("case", rp)
         res = (split_chunk([c["params"]]) if c.get("kind") == "split" else
-               coll_kw_chunk([c]) if c.get("kind") == "collkw" else kw_chunk([c]))
+               coll_kw_chunk([c]) if c.get("kind") == "collkw" else
+               coll_seq_chunk([c]) if c.get("kind") == "collseq" else kw_chunk([c]))
         st, viol, disag, _ = res
         print("replay:", json.dumps({"case": c, "violations": [v[:2] for v in viol], "disagreements": [d[:2] for d in disag]},
                                     default=str, ensure_ascii=False))
@@ -1022,6 +1235,10 @@ def run(chk: core.Check):
     ckw = collector_kw_cases(random.Random(chk.seed * 11 + 3), tier)
     chk.extra_cov["collector_kw_cases"] = len(ckw)
     for r in core.pmap(coll_kw_chunk, core.chunked(ckw, 64)):
+        _absorb(chk, *r)
+    cseq = coll_seq_cases(random.Random(chk.seed * 19 + 9), tier)
+    chk.extra_cov["collector_then_keyword_cases"] = len(cseq)
+    for r in core.pmap(coll_seq_chunk, core.chunked(cseq, 64)):
         _absorb(chk, *r)
     chk.exhaustive = True
     chk.extra_cov["exhaustive_bound"] = ("all sequences of length <= 5 over 3 values x 7 value triples; all AoH (5 member states) "
